@@ -12,6 +12,7 @@ from pyasn1.codec.ber import eoo
 from pyasn1.compat.integer import to_bytes
 from pyasn1.compat.octets import (int2oct, oct2int, ints2octs, null,
                                   str2octs, isOctetsType)
+from pyasn1.type import base
 from pyasn1.type import char
 from pyasn1.type import tag
 from pyasn1.type import univ
@@ -528,6 +529,23 @@ class RealEncoder(AbstractItemEncoder):
 class SequenceEncoder(AbstractItemEncoder):
     omitEmptyOptionals = False
 
+    @staticmethod
+    def _isDefaultValue(component, namedType):
+        """Tell if bare Python value equals DEFAULT value of the component"""
+        default = namedType.asn1Object
+
+        if (isinstance(default, base.SimpleAsn1Type) and
+                not isinstance(component, base.Asn1Item)):
+            # Python-level `==` is type-blind: None is not Null(''),
+            # '1.3.6' is not ObjectIdentifier((1, 3, 6))
+            try:
+                component = default.clone(component)
+
+            except error.PyAsn1Error:
+                return False
+
+        return component == default
+
     # TODO: handling three flavors of input is too much -- split over codecs
 
     def encodeValue(self, value, asn1Spec, encodeFun, **options):
@@ -611,7 +629,7 @@ class SequenceEncoder(AbstractItemEncoder):
                     raise error.PyAsn1Error('Component name "%s" not found in %r' % (
                         namedType.name, value))
 
-                if namedType.isDefaulted and component == namedType.asn1Object:
+                if namedType.isDefaulted and self._isDefaultValue(component, namedType):
                     if LOG:
                         LOG('not encoding DEFAULT component %r' % (namedType,))
                     continue
